@@ -109,19 +109,39 @@ Definition hist_point (name : bytes) (res : lmap) (p : hpoint) : dpoint :=
 Definition summary_point (name : bytes) (res : lmap) (p : spoint) : dpoint :=
   mkDP (as_i64 (sp_time p)) name (sp_sum p) (merge_labels res (key_values_to_labels (sp_attrs p))).
 
-Definition metric_points (res : lmap) (mt : metric) : list dpoint :=
+(* the data points of a request in the order of the four nested loops of
+   export_request_to_data_points, each tagged with its metric name and the
+   labels of its resource *)
+Inductive src := SrcN (p : npoint) | SrcH (p : hpoint) | SrcS (p : spoint).
+
+Definition metric_sources (mt : metric) : list src :=
   match m_data mt with
-  | DGauge l | DSum l => map (number_point (m_name mt) res) l
-  | DHist l | DExpHist l => map (hist_point (m_name mt) res) l
-  | DSummary l => map (summary_point (m_name mt) res) l
+  | DGauge l | DSum l => map SrcN l
+  | DHist l | DExpHist l => map SrcH l
+  | DSummary l => map SrcS l
   | DNone => []
   end.
 
-Definition resource_points (rm : resource_metrics) : list dpoint :=
-  let res := match rm_resource rm with Some a => key_values_to_labels a | None => [] end in
-  flat_map (fun scope => flat_map (metric_points res) scope) (rm_scopes rm).
+Record tagged := mkTagged { tg_name : bytes; tg_res : lmap; tg_src : src }.
 
-Definition export_points (r : oreq) : list dpoint := flat_map resource_points r.
+Definition resource_labels (rm : resource_metrics) : lmap :=
+  match rm_resource rm with Some a => key_values_to_labels a | None => [] end.
+
+Definition resource_tagged (rm : resource_metrics) : list tagged :=
+  flat_map (fun scope =>
+    flat_map (fun mt => map (mkTagged (m_name mt) (resource_labels rm)) (metric_sources mt)) scope)
+    (rm_scopes rm).
+
+Definition all_tagged (r : oreq) : list tagged := flat_map resource_tagged r.
+
+Definition point_of (t : tagged) : dpoint :=
+  match tg_src t with
+  | SrcN p => number_point (tg_name t) (tg_res t) p
+  | SrcH p => hist_point (tg_name t) (tg_res t) p
+  | SrcS p => summary_point (tg_name t) (tg_res t) p
+  end.
+
+Definition export_points (r : oreq) : list dpoint := map point_of (all_tagged r).
 
 (* ---- data_points_to_arrow ---- *)
 Record orow := mkORow { o_ts : Z; o_name : bytes; o_bits : N; o_cells : list (option bytes) }.
@@ -144,32 +164,30 @@ Definition points_to_arrow (ps : list dpoint) : outcome obatch :=
 
 Definition export_to_arrow (r : oreq) : outcome obatch := points_to_arrow (export_points r).
 
-(* ---- the failing inputs, as an executable classifier (known findings) ---- *)
-Definition I53 : Z := 9007199254740992.            (* 2^53 *)
-Definition np_int_inexact (p : npoint) : bool :=
-  match np_val p with
-  | NInt i => negb (Z.eqb (BinarySingleNaN.Btrunc (f64_of_bits (bits_of_int i))) i)
-  | _ => false
-  end.
-Definition hp_count_inexact (p : hpoint) : bool :=
-  match hp_sum p with
-  | Some _ => false
-  | None => negb (Z.eqb (BinarySingleNaN.Btrunc (f64_of_bits (bits_of_int (Z.of_N (hp_count p))))) (Z.of_N (hp_count p)))
-  end.
-Definition metric_has (fn : npoint -> bool) (fh : hpoint -> bool) (fs : spoint -> bool) (mt : metric) : bool :=
-  match m_data mt with
-  | DGauge l | DSum l => existsb fn l
-  | DHist l | DExpHist l => existsb fh l
-  | DSummary l => existsb fs l
-  | DNone => false
-  end.
-Definition req_has (fn : npoint -> bool) (fh : hpoint -> bool) (fs : spoint -> bool) (r : oreq) : bool :=
-  existsb (fun rm => existsb (fun sc => existsb (metric_has fn fh fs) sc) (rm_scopes rm)) r.
+(* ---- the failing inputs, as executable classifiers (known findings) ---- *)
+Definition src_time (s : src) : N :=
+  match s with SrcN p => np_time p | SrcH p => hp_time p | SrcS p => sp_time p end.
 
-(* class "otlp-int-precision": some AsInt value (or a histogram count standing in
-   for a missing sum) is not exactly representable in f64 *)
+(* the integer the point stands for, when its value is an integer *)
+Definition src_int (s : src) : option Z :=
+  match s with
+  | SrcN p => match np_val p with NInt i => Some i | _ => None end
+  | SrcH p => match hp_sum p with None => Some (Z.of_N (hp_count p)) | Some _ => None end
+  | SrcS _ => None
+  end.
+
+(* `i as f64` is exactly i *)
+Definition int_exact_in_f64 (i : Z) : bool :=
+  let x := f64_of_bits (bits_of_int i) in
+  f64_is_int x && Z.eqb (BinarySingleNaN.Btrunc x) i.
+
+(* class "otlp-int-precision": some AsInt value (or a histogram count standing
+   in for a missing sum) is not exactly representable in f64 *)
+Definition src_int_inexact (s : src) : bool :=
+  match src_int s with Some i => negb (int_exact_in_f64 i) | None => false end.
 Definition known_int_precision (r : oreq) : bool :=
-  req_has np_int_inexact hp_count_inexact (fun _ => false) r.
+  existsb (fun t => src_int_inexact (tg_src t)) (all_tagged r).
+
 (* class "otlp-time-wrap": some time_unix_nano is >= 2^63 *)
 Definition known_time_wrap (r : oreq) : bool :=
-  req_has (fun p => I63 <=? np_time p) (fun p => I63 <=? hp_time p) (fun p => I63 <=? sp_time p) r.
+  existsb (fun t => I63 <=? src_time (tg_src t)) (all_tagged r).
